@@ -318,6 +318,10 @@ func (g Gap) Center() float64 {
 	return (g.Left + g.Right) / 2
 }
 
+// maxHistogramBuckets bounds the density histogram of findVerticalGaps (5-point
+// buckets: far beyond the 14400 units the largest PDF page can measure).
+const maxHistogramBuckets = 1 << 16
+
 // findVerticalGaps finds significant vertical whitespace gaps using density analysis
 // This approach handles documents with spanning headers/titles that cross column boundaries
 func (d *ColumnDetector) findVerticalGaps(fragments []text.TextFragment, pageWidth, pageHeight float64) []Gap {
@@ -329,6 +333,11 @@ func (d *ColumnDetector) findVerticalGaps(fragments []text.TextFragment, pageWid
 	// Use 5-point buckets for good resolution
 	bucketSize := 5.0
 	numBuckets := int(pageWidth/bucketSize) + 1
+	// The page width is a number written in the file (MediaBox): without a
+	// usable width there is nothing to build a histogram over.
+	if numBuckets < 1 || numBuckets > maxHistogramBuckets {
+		return nil
+	}
 	histogram := make([]int, numBuckets)
 
 	// Find X range of actual content
